@@ -1,6 +1,7 @@
 SPECIFICATION Spec
 CONSTANTS
   MaxOps = 4
+  Focus = "all"
   EmitOn = FALSE
 VIEW View
 INVARIANT QuadratureSum
